@@ -179,6 +179,8 @@ pub struct SchemaGen<'a> {
     uuid_n: u64,
     /// service uuids that may be reused on purpose (invalid mode): duplicates across schemas
     pub reuse_uuids: Vec<String>,
+    /// types of imported schemas usable as `schema::Type` anywhere a type is expected
+    ext_types: Vec<(String, String)>,
 }
 
 fn camel(w: &[&str]) -> String {
@@ -193,7 +195,7 @@ fn camel(w: &[&str]) -> String {
 
 impl<'a> SchemaGen<'a> {
     pub fn new(r: &'a mut Rng, cfg: GenCfg) -> Self {
-        SchemaGen { r, cfg, used_names: Vec::new(), type_names: Vec::new(), const_ints: Vec::new(), uuid_n: 0, reuse_uuids: Vec::new() }
+        SchemaGen { r, cfg, used_names: Vec::new(), type_names: Vec::new(), const_ints: Vec::new(), uuid_n: 0, reuse_uuids: Vec::new(), ext_types: Vec::new() }
     }
 
     fn words(&mut self, n: usize) -> Vec<&'static str> {
@@ -307,6 +309,10 @@ impl<'a> SchemaGen<'a> {
     pub fn ty(&mut self, depth: usize) -> AType {
         let leaf = depth >= 3 || self.r.chance(1, 2);
         if leaf {
+            if !self.ext_types.is_empty() && self.r.chance(1, 6) {
+                let (a, b) = self.r.pick(&self.ext_types).clone();
+                return AType::Extern(a, b);
+            }
             let n = if self.cfg.plain_types_only { 17 } else { 18 };
             return match self.r.below(n + if self.type_names.is_empty() { 0 } else { 6 }) {
                 0 => AType::Bool,
@@ -494,6 +500,7 @@ impl<'a> SchemaGen<'a> {
                 }
             }
         }
+        self.ext_types = ext.clone();
         let ndefs = 1 + self.r.below(self.cfg.max_defs);
         // declare names first so that forward and recursive references are possible
         let mut kinds = Vec::new();
